@@ -481,6 +481,20 @@ def tap_values(wavelet_name):
     return L, vals
 
 
+def per_axis_tap_values(wcol, wrow):
+    """tap values for a 4-filter transform: column wavelet on the vertical axis, row wavelet on the horizontal"""
+    import pywt
+    wc, wr = pywt.Wavelet(wcol), pywt.Wavelet(wrow)
+    vals = {}
+    for i, (w, which) in enumerate(((wc, 'dec_lo'), (wc, 'dec_hi'), (wr, 'dec_lo'), (wr, 'dec_hi'))):
+        for j, v in enumerate(getattr(w, which)):
+            vals[(('user', 'a%d' % i), j)] = float(v)
+    for i, (w, which) in enumerate(((wc, 'rec_lo'), (wc, 'rec_hi'), (wr, 'rec_lo'), (wr, 'rec_hi'))):
+        for j, v in enumerate(getattr(w, which)):
+            vals[(('user', 's%d' % i), j)] = float(v)
+    return vals
+
+
 def table_matrix(tb, n_in, vals):
     M = np.zeros((len(tb.forms), n_in))
     for k, f in enumerate(tb.forms):
@@ -555,15 +569,24 @@ def w_compose(S, item):
         in_sizes = [N]
     else:
         H, W = size
-        f = S.construct(T2, 'DWTForward', J=J, wave=wname(L), mode=mode)
-        g = S.construct(T2, 'DWTInverse', wave=wname(L), mode=mode)
+        if dim == 4:
+            # one wavelet per axis: analysis filters a0..a3, synthesis filters s0..s3 (column pair, row pair)
+            Lc, Lr = L
+            fa = tuple(user_filter('a%d' % i, Lc if i < 2 else Lr) for i in range(4))
+            fs = tuple(user_filter('s%d' % i, Lc if i < 2 else Lr) for i in range(4))
+            f = S.construct(T2, 'DWTForward', J=J, wave=fa, mode=mode)
+            g = S.construct(T2, 'DWTInverse', wave=fs, mode=mode)
+        else:
+            Lc = Lr = L
+            f = S.construct(T2, 'DWTForward', J=J, wave=wname(L), mode=mode)
+            g = S.construct(T2, 'DWTInverse', wave=wname(L), mode=mode)
         b, x = base_tensor('x', 1, 1, [H, W])
-        lh_ = level_lengths(H, L, mode, J)
-        lw_ = level_lengths(W, L, mode, J)
-        conds = (size_cond(lh_[:-1], L, mode), size_cond(lw_[:-1], L, mode))
+        lh_ = level_lengths(H, Lc, mode, J)
+        lw_ = level_lengths(W, Lr, mode, J)
+        conds = (size_cond(lh_[:-1], Lc, mode), size_cond(lw_[:-1], Lr, mode))
         cond = ('Ne<L' if 'Ne<L' in conds else 'Ne>=L') if mode in ('periodization', 'per') else ('N<L' if 'N<L' in conds else 'N>=L')
         in_sizes = [H, W]
-    construct = 'DWT%sInverse(DWT%sForward(x))' % (('1D', '1D') if dim == 1 else ('', ''))
+    construct = 'DWT%sInverse(DWT%sForward(x))' % (('1D', '1D') if dim == 1 else ('', '')) + ('[4-filter]' if dim == 4 else '')
     o = S.run(S.method(f, 'forward'), x)
     if o.kind == 'ok':
         yl, yh = o.value
@@ -588,7 +611,10 @@ def w_compose(S, item):
     if not problems:
         n_in = int(np.prod(in_sizes))
         for wn in wavelets:
-            Lw, vals = tap_values(wn)
+            if dim == 4:
+                vals = per_axis_tap_values(wn[0], wn[1])
+            else:
+                Lw, vals = tap_values(wn)
             M = cell_operator(y.cells[0, 0], b, (0, 0), in_sizes, vals)
             res['cmp'] += 1
             if M is None:
@@ -602,6 +628,8 @@ def w_compose(S, item):
             err = float(np.abs(M[rows] - np.eye(n_in)).max())
             if dim == 1:
                 ref = ref_compose_error_1d(in_sizes[0], L, mode, J, vals)
+            elif dim == 4:
+                ref = 1e-12
             else:
                 ref = max(ref_compose_error_1d(in_sizes[0], L, mode, J, vals),
                           ref_compose_error_1d(in_sizes[1], L, mode, J, vals))
@@ -617,7 +645,7 @@ def w_compose(S, item):
         res['diff'] = 1
         what, msg = problems[0]
         res['findings'].append(finding('PR', construct, '%s:%s:%s' % (mode, cond, what),
-                                       'mode=%s L=%d size=%s J=%d: %s' % (mode, L, size, J, msg),
+                                       'mode=%s L=%s size=%s J=%d: %s' % (mode, L, size, J, msg),
                                        anchor=anchor(S, LL, 'sfb1d'), detail={'config': list(item[:5])}))
     else:
         res['sample'] = {'config': dict(dim=dim, mode=mode, L=L, size=size, J=J), 'wavelets': list(wavelets),
